@@ -56,7 +56,7 @@ func runCase(h handler, args []string) (out string) {
 
 func main() {
 	// `mg.<op>`: the same implementation-side handler; the driver answers from the regenerated MiniGo program
-	for _, op := range []string{"verdict", "iter.seq", "jobcounter", "dist", "staged", "ramp", "gauss"} {
+	for _, op := range []string{"verdict", "iter.seq", "jobcounter", "dist", "staged", "ramp", "gauss", "scn", "plan"} {
 		if h, ok := handlers[op]; ok {
 			handlers["mg."+op] = h
 		}
